@@ -28,6 +28,8 @@ pub struct Unit {
     pub defines: Vec<(String, String)>,  // `${NAME}` placeholders in spec files
     pub broadcasts: Vec<String>,      // broadcast groups made available at the entry of every extracted body (ghost only)
     pub eagersync: BTreeSet<String>,  // eager names whose un-awaited call is a synchronous call of a same-named function (not a future value)
+    pub onrecv: Vec<(String, String, String)>, // method `m` called on the local `x` is renamed (`on x m => n`)
+    pub panic_forbidden: bool,        // `panics forbidden`: a panic in this unit's functions is an obligation failure, not a path end
     pub adapters_off: bool,
     pub extracts: Vec<Extract>,
 }
@@ -49,9 +51,11 @@ impl Unit {
                 "traced" => u.traced.extend(words()),
                 "eagersync" => { u.eagersync.extend(words()); u.eager.extend(words()); u.traced.extend(words()); }
                 "ufcs" => u.ufcs.extend(words()),
+                "panics" => { u.panic_forbidden = rest.trim() == "forbidden"; }
                 "broadcast" => u.broadcasts.extend(words()),
                 "define" => { let w: Vec<String> = words().collect(); if w.len() == 2 { u.defines.push((w[0].clone(), w[1].clone())); } }
                 "expr" => { let (a, b) = rest.split_once("=>").ok_or_else(|| format!("{}:{}: expected `a => b`", p.display(), n + 1))?; u.exprs.push((nospace(a), b.trim().to_string())); }
+                "on" => { let (a, b) = rest.split_once("=>").ok_or_else(|| format!("{}:{}: expected `on x m => n`", p.display(), n + 1))?; let ws: Vec<&str> = a.split_whitespace().collect(); if ws.len() != 2 { return Err(format!("{}:{}: on x m => n", p.display(), n + 1)); } u.onrecv.push((ws[0].to_string(), ws[1].to_string(), b.trim().to_string())); }
                 "chain" => { let (a, b) = rest.split_once("=>").ok_or_else(|| format!("{}:{}: expected `a b => c`", p.display(), n + 1))?; let ws: Vec<&str> = a.split_whitespace().collect(); if ws.len() != 2 { return Err(format!("{}:{}: chain a b => c", p.display(), n + 1)); } u.chains.push((ws[0].to_string(), ws[1].to_string(), b.trim().to_string())); }
                 "generic" => { let (a, b) = rest.split_once("=>").ok_or_else(|| format!("{}:{}: expected `a => b`", p.display(), n + 1))?; u.generics.push((nospace(a), b.trim().to_string())); }
                 "path" | "type" | "bound" | "method" => {
